@@ -225,10 +225,26 @@ def weave_function(fn, path, src, edits, counter, census, loops=None):
             if '_Atomic' not in qt and 'fiber_manager_t' not in base_t and 'struct fiber_manager' not in base_t:
                 if rmw_stmt.get('_parent') != 'CompoundStmt':
                     raise WeaveError('%s: non-atomic read-modify-write of shared memory is not a statement of its own' % name)
-                se = file_off(rmw_stmt['range']['end'], path, end=True)
-                m = re.match(r'\s*;', src[se:]) if se is not None else None
-                if not m:
+                # end of the statement: the terminating ';' at nesting depth 0 after the lvalue (the right-hand side may
+                # end inside a macro expansion, so scan the text)
+                i, d = r[1], 0
+                while i < fe:
+                    c = src[i]
+                    if c in '([{':
+                        d += 1
+                    elif c in ')]}':
+                        d -= 1
+                        if d < 0:
+                            break
+                    elif c == ';' and d == 0:
+                        break
+                    i += 1
+                if i >= fe or src[i] != ';':
                     raise WeaveError('%s: cannot find the end of a read-modify-write statement' % name)
+                class _M:  # noqa
+                    pass
+                se, m = i, _M()
+                m.end = lambda: 1
                 counter[0] += 1
                 stats['nonatomic_rmw'] = stats.get('nonatomic_rmw', 0) + 1
                 edits.append((r[0], 0, depth, PRE + '(*VERIF_RMW(%d, &(' % n + POST))
